@@ -208,8 +208,9 @@ countnz(const int_t n, int_t *xprune, int_t *nnzL, int_t *nnzU, GlobalLU_t *Glu)
 void
 fixupL(const int_t n, const int_t *perm_r, GlobalLU_t *Glu)
 {
-    register int_t nsuper, fsupc, nextl, i, j, jstrt;
+    register int_t nsuper, fsupc, nextl, i, j, k, jstrt;
     register int_t *xsup, *xsup_end, *lsub, *xlsub, *xlsub_end;
+    int_t *order; /* supernodes in the order of their storage in lsub[] */
 
     if ( n <= 1 ) return;
 
@@ -221,10 +222,26 @@ fixupL(const int_t n, const int_t *perm_r, GlobalLU_t *Glu)
     nsuper    = Glu->supno[n];
     nextl     = 0;
     
+    /*
+     * With more than one thread the supernode numbers (NewNsuper) and the
+     * subscript storage (Glu_alloc) are handed out in two separate critical
+     * sections, so the storage order in lsub[] need not follow the supernode
+     * numbers. The in-place compaction below must visit the supernodes in
+     * storage order, otherwise it overwrites lists it has not moved yet.
+     */
+    order = intMalloc(nsuper+1);
+    for (i = 0; i <= nsuper; i++) { /* insertion sort; nearly sorted input */
+	jstrt = xlsub[xsup[i]];
+	for (k = i; k > 0 && xlsub[xsup[order[k-1]]] > jstrt; --k)
+	    order[k] = order[k-1];
+	order[k] = i;
+    }
+
     /* 
      * For each supernode ...
      */
-    for (i = 0; i <= nsuper; i++) {
+    for (k = 0; k <= nsuper; k++) {
+	i = order[k];
 	fsupc = xsup[i];
 	jstrt = xlsub[fsupc];
 	xlsub[fsupc] = nextl;
@@ -235,6 +252,7 @@ fixupL(const int_t n, const int_t *perm_r, GlobalLU_t *Glu)
 	xlsub_end[fsupc] = nextl;
     }
     xlsub[n] = nextl;
+    SUPERLU_FREE (order);
 
 #if ( PRNTlevel==1 )
     printf(".. # edges in supernodal graph of L = " IFMT "\n", nextl);
